@@ -256,20 +256,21 @@ Section Forward.
 
   (* the loop over the neighbours (pathfinding.py:37-48) *)
   Lemma as_relax_spec : forall nbrs cur st,
-    as_st_inv st -> as_lookup cur (as_cost st) <> None -> cur <> goal \/ goal = start -> (goal = start -> False) \/ early = false \/ True ->
+    as_st_inv st -> as_lookup cur (as_cost st) <> None ->
     (forall x, In x nbrs -> In x (adj cur)) ->
-    match as_relax adj h goal early cur nbrs st with
+    match as_relax h goal early cur nbrs st with
     | AS_Continue st' => as_st_inv st'
     | AS_Return st' => early = true /\ exists st0 e, as_st_inv st0 /\ as_lookup cur (as_cost st0) <> None /\ In (goal, e) (adj cur)
                          /\ as_came st' = (goal, Some (cur, e)) :: as_came st0
     | AS_KeyError => False
     end.
   Proof.
-    induction nbrs as [| [nxt e] r IH]; intros cur st I Hcur Hcg Hdummy Hsub; simpl.
+    induction nbrs as [| [nxt e] r IH]; intros cur st I Hcur Hsub; simpl.
     - exact I.
     - destruct (early && (nxt =? goal)%nat) eqn:Heg.
       + apply andb_prop in Heg as [He Hng]. apply Nat.eqb_eq in Hng. subst nxt.
-        split; [assumption |]. exists st, e. simpl. repeat split; auto. apply Hsub. now left.
+        split; [assumption |]. exists st, e. simpl.
+        split; [assumption |]. split; [assumption |]. split; [apply Hsub; now left | reflexivity].
       + destruct (as_lookup cur (as_cost st)) as [cc |] eqn:Hcc; [| congruence].
         assert (Hadj : In (nxt, e) (adj cur)) by (apply Hsub; now left).
         assert (Hsub' : forall x, In x r -> In x (adj cur)) by (intros x Hx; apply Hsub; now right).
@@ -304,8 +305,8 @@ Section Forward.
     - set (st1 := mkAS rest (as_came st) (as_cost st) (as_pop_margin (as_margin st) p rest)).
       assert (I1 : as_st_inv st1).
       { destruct I; constructor; simpl; auto. intros p' c' H'. eapply si_frontier0. apply Hrest. exact H'. }
-      pose proof (as_relax_spec (adj cur) cur st1 I1 Hcur (or_introl Hcg) (or_intror (or_intror Logic.I)) (fun x H => H)) as Hr.
-      destruct (as_relax adj h goal early cur (adj cur) st1) as [st' | st' |].
+      pose proof (as_relax_spec (adj cur) cur st1 I1 Hcur (fun x H => H)) as Hr.
+      destruct (as_relax h goal early cur (adj cur) st1) as [st' | st' |].
       + apply IH. exact Hr.
       + destruct Hr as (He & st0 & e & I0 & Hc0 & Hadj & Hcame). rewrite Hcame. split.
         * destruct (Nat.eq_dec goal start) as [Hgs | Hgs].
